@@ -38,6 +38,7 @@ Definition to_op (x : sx) : op :=
   | 1%Z => OAdd (to_spec (nthx 1 x)) (to_bool (nthx 2 x)) (to_opt to_Z (nthx 3 x)) (to_bool (nthx 4 x))
   | 2%Z => ORun (to_bool (nthx 1 x))
   | 3%Z => ORerun (to_bool (nthx 1 x)) (to_bool (nthx 2 x))
+  | 5%Z => OReadd (to_nat (nthx 1 x))
   | _ => OProgress
   end.
 Definition to_answer (x : sx) : answer :=
